@@ -33,7 +33,7 @@ def _arr_mod4(a):
 def _sN(o):
     """qubit number of a value object, -1 if it cannot be told (degenerate shapes)."""
     try:
-        return _sN(o)
+        return int(o.N)
     except Exception:
         return -1
 
